@@ -565,6 +565,9 @@ func Run(root func(), prefix []int, maxSteps int, logOn bool) *Sched {
 	raceDisable()
 	t.wake <- struct{}{}
 	<-s.fin
+	if BeforeTeardown != nil {
+		BeforeTeardown()
+	}
 	// tear down: kill every thread that has not finished, one at a time
 	s.killing = true
 	for _, u := range s.threads {
@@ -579,6 +582,11 @@ func Run(root func(), prefix []int, maxSteps int, logOn bool) *Sched {
 	S = nil
 	return s
 }
+
+// BeforeTeardown is called when an execution has ended, before its unfinished threads are killed. Killed
+// threads run their deferred functions with the modelled primitives switched off, so what a per-execution
+// observer (the race log) sees after this point says nothing about the program.
+var BeforeTeardown func()
 
 // Blocked returns the threads that have not finished, with their pending op kind.
 func (s *Sched) Blocked() []string {
